@@ -19,7 +19,8 @@
 From CB Require Import Pipe PipeCorrect.
 From CB Require Import ProofLib Spec Chain Programs Inv_for_each.
 From CB Require Import Chain Programs Tree TreePrograms TreeFunctional Order_nary Inv_for_each.
-From CB Require Import Flow Wire2 Liveness PipeNet.
+From CB Require Import Flow Wire2 Liveness PipeNet LivenessNexts.
+From CB Require Inv_from_iter.
 From Coq Require Import List Arith.
 Import ListNotations.
 
@@ -181,3 +182,24 @@ Theorem C06_net_pipe_run_example :
   net_pipe_run [StMap 1 1; StFilter 2 0; StTake 2] [1; 2; 3; 4; 5] = Some ([2; 4], 3, true, true).
 Proof. exact net_pipe_run_example. Qed.
 Print Assumptions C06_net_pipe_run_example.
+
+(** "The iterator is advanced only on demand (once per element delivered plus once to discover
+    exhaustion)": in every reachable state of every pipeline, with or without for_each, over any iterator,
+    the results of next() so far are exactly the items from_iter delivered, followed by None iff
+    from_iter told its sink the end, and there are never more of them than Pulls from_iter received *)
+Theorem C06_pipeline_nexts it stages b N :
+  Forall ustage_ok stages -> net_reach (pipe_net it stages b) N ->
+  forall n0, nth_error (nodes N) 0 = Some n0 ->
+    Inv_from_iter.nexts (ntrace n0) =
+      map Some (data_out 0 (ntrace n0)) ++
+      match sk (nms n0) 0 with SFinished => [None] | _ => [] end /\
+    length (Inv_from_iter.nexts (ntrace n0)) <= pin (ntrace n0).
+Proof. exact (@pipeline_nexts it stages b N). Qed.
+Print Assumptions C06_pipeline_nexts.
+
+Theorem C06_pipeline_nexts_bound (xs : list val) stages b N :
+  Forall ustage_ok stages -> net_reach (pipe_net (fun k => nth_error xs k) stages b) N ->
+  forall n0, nth_error (nodes N) 0 = Some n0 ->
+    length (Inv_from_iter.nexts (ntrace n0)) <= S (length xs).
+Proof. exact (@pipeline_nexts_bound xs stages b N). Qed.
+Print Assumptions C06_pipeline_nexts_bound.
